@@ -10,6 +10,7 @@ from .. import gen, pkg, stubs
 from ..oracles import root_orders
 from ..plain import INF, Instance, label_internal, parse_newick, total_cost
 from ..runner import ROOT, HarnessError, Result, Violation
+from ..solver_common import check_refinement
 from ..tikzcheck import Picture, TikzError
 
 ID = "C12"
@@ -49,6 +50,11 @@ def _case(draw):
     if big:
         # naming at sizes where generated labels reach two digits (the LCA algorithm is cheap enough)
         case = draw(gen.rec_case(max_obj=14, max_sp=10, min_obj=8, costs="coherent", labelled=True, max_fam=3))
+    elif algo in ("ext_spfs", "superdtl") and gen.chance(draw, 1, 4):
+        # a multifurcation in either tree: the extended solvers write solutions on binary refinements of the input
+        op, sp = draw(st.sampled_from([(1, 0), (0, 1), (1, 1)]))
+        case = draw(gen.rec_case(max_obj=4, max_sp=4, min_obj=3, costs="coherent", labelled=True, max_fam=3, obj_poly=op, sp_poly=sp,
+                                 allow_inconsistent=(algo == "ext_spfs")))
     else:
         case = draw(gen.rec_case(max_obj=5, max_sp=4, costs="coherent", labelled=True, max_fam=4))
     if gen.chance(draw, 1, 4):
@@ -207,7 +213,11 @@ def check(case):
                 if len(set(names)) != len(names) or any(n in ("", "NoName") for n in names):
                     raise Violation(f"cli.names-not-distinct-nonempty.{key}", observed=names, expected="distinct non-empty names")
                 want = expected[key]
-                if _no_features(got) != _no_features(want):
+                if not want.is_binary():
+                    # written on a binary refinement: every clade and every (given or generated) name of the labelled
+                    # input is kept, the added nodes get distinct non-empty names
+                    check_refinement(want, got, f"cli.refinement.{key}")
+                elif _no_features(got) != _no_features(want):
                     raise Violation(f"cli.naming-rule.{key}", observed=data["input"][key], expected=want.to_newick())
             ocase = dict(data["input"])
             # the solutions are priced with the cost options the tool was given (defaults for omitted ones)
